@@ -168,8 +168,10 @@ fn main() {
                         .with_order(entry.order as _);
                 }
 
+                // Free the part of the allocation that corresponds to the freed pfn
+                let frame = FrameId(frame.0 + (pfn - a_pfn));
                 if let Err(e) = llfree.put(frame, flags) {
-                    error!("Free failed pfn={a_pfn} order={} error={e:?}", flags.order);
+                    error!("Free failed pfn={pfn} order={} error={e:?}", flags.order);
                 }
             } else {
                 trace!("Free unallocated pfn={pfn} order={}", flags.order);
